@@ -284,3 +284,78 @@ def rule_cg_start(ctx, R):
                               "a new group's last-delivered ID is not initialised from the start position it was created with: `XGROUP CREATE s g $` followed by XREADGROUP > delivers the whole stream instead of only entries added after creation", b.loc(i))
                 return
     R.broken.append("ConsumerGroup construction not found")
+
+
+# ---------------------------------------------------------------------------------------------
+STREAM_MUTATORS = ("add_auto", "add_with_id", "delete", "trim_by_count", "trim_by_min_id")
+
+
+def rule_keepkey(ctx, R):
+    """the last-ID state lives inside the Stream value: an engine method that adds to, deletes
+    from or trims a stream never removes the key itself (an emptied stream stays, as in Redis),
+    otherwise the next XADD starts again from 0-0 and old IDs are accepted/re-issued."""
+    n = 0
+    for fn, b in sorted(shared.engine_bodies(ctx.prog).items()):
+        muts = [i for i, t in b.calls() if callee(t) in {ST + m for m in STREAM_MUTATORS}]
+        if not muts:
+            continue
+        n += 1
+        rem = [(i, f) for (i, k, f) in shared.data_mut_sites(b) if k == "map" and re.search(r"::(remove|remove_entry|clear|drain|retain)(::<.*>)?$", f) and not shared.is_purge_block(b, i)]
+        R.inst(fn, "stream-method", {"function": fn, "stream_mutations": len(muts), "key_removals_outside_expiry_purge": len(rem)})
+        for i, f in rem[:1]:
+            R.finding(fn, "stream-key-removed", "%s removes the stream's key (line %d): the stream's last ID is forgotten, so a later XADD accepts or re-issues an ID that is not greater than one added before" % (fn.split("::")[-1], b.bb_line(i)), b.loc(i))
+    R.floor("stream_mutating_engine_methods", n)
+
+
+def rule_idparse(ctx, R):
+    """the ID parser refuses numbers that do not fit in 64 bits: digits are accumulated with
+    checked_mul/checked_add (or str::parse), never with wrapping/saturating arithmetic, which
+    would map distinct texts onto one ID or onto a smaller one"""
+    fns = [fn for fn in ctx.prog.bodies if fn.startswith("storage::stream::StreamId::") and fn.split("::")[-1] in ("from_string", "parse_u64_fast")]
+    R.floor("id_parser_functions", len(fns))
+    bad = []; good = 0
+    for fn in sorted(fns):
+        b = ctx.prog.bodies[fn]
+        for i, t in b.calls():
+            f = t["f"] or ""
+            if re.search(r"::(wrapping|saturating|overflowing)_(mul|add)$", f):
+                bad.append((fn, i, f))
+            if re.search(r"::checked_(mul|add)$|<impl str>::parse::<u64>$", f):
+                good += 1
+        for x, bb in enumerate(b.bbs):
+            for st in bb["s"]:
+                if st["k"] == "=" and st["r"]["k"] == "bin" and st["r"]["op"] in ("Mul", "Add") and b.locals[st["l"]["l"]] == "u64":
+                    bad.append((fn, x, "unchecked " + st["r"]["op"]))
+    R.inst("storage::stream::StreamId", "id-parser", {"functions": sorted(fns), "checked_steps": good, "wrapping_steps": len(bad)})
+    for fn, i, f in bad[:1]:
+        b = ctx.prog.bodies[fn]
+        R.finding(fn, "id-parser:wrapping-arithmetic", "the stream-ID parser accumulates digits with %s (line %d): 18446744073709551616-1 is read as 0-1 instead of being refused" % (f.split("::")[-1], b.bb_line(i)), b.loc(i))
+    if not bad and not good:
+        R.finding("storage::stream::StreamId::from_string", "id-parser:no-checked-accumulation", "the stream-ID parser has no checked accumulation step", None)
+
+
+def rule_exhaust(ctx, R):
+    """XADD * on an existing stream is refused when no greater ID exists: the auto-ID append is
+    guarded by a comparison of the stream's last ID with the maximum ID"""
+    b = ctx.prog.need(shared.ENGINE + "xadd")
+    adds = [i for i, t in b.calls() if callee(t) == ST + "add_auto" and t["a"] and shared.from_dataset(b, t["a"][0])]
+    R.floor("auto_id_appends_on_existing_stream", len(adds))
+    eqs = []
+    for i, t in b.calls():
+        if re.search(r"storage::stream::StreamId as std::cmp::PartialEq>::(eq|ne)$|storage::stream::StreamId as std::cmp::PartialOrd>::(ge|lt|gt|le)$", t["f"] or ""):
+            srcs = [prov.operand_origins(b, a) for a in t["a"][:2] if not op_is_const(a)]
+            if any(P.has_call(r"storage::stream::Stream::last_id$") for P in srcs) and any(P.has_call(r"storage::stream::StreamId::max$") for P in srcs):
+                sw = shared._follow_to_switch(b, t["t"], t["d"]["l"])
+                if sw:
+                    eqs.append((i, sw))
+    for k, a in enumerate(adds):
+        ok = False
+        for i, (sb, st) in eqs:
+            for tgt in [tb for _, tb in st["ts"]] + [st["o"]]:
+                if a in cfg.edge_dom_set(b, sb, tgt):
+                    others = [tb for tb in [x for _, x in st["ts"]] + [st["o"]] if tb != tgt]
+                    if any(cfg.path_avoiding(b, [o], set(b.exits()), set(adds)) is not None for o in others):
+                        ok = True
+        R.inst(b.fn, "auto-append#%d" % k, {"at": b.loc(a), "guarded_by_last_id_vs_max_test": ok})
+        if not ok:
+            R.finding(b.fn, "auto-append:no-exhaustion-test", "XADD * appends to an existing stream (line %d) without testing whether the last ID is already the highest possible one: the generated ID is then not greater than the last" % b.bb_line(a), b.loc(a))
